@@ -488,7 +488,7 @@ class StyleProperties:
     def from_model(cls, xml_element, model_value):
       xml_element.set(
         f"{{{cls.ns}}}{cls.local_name}", 
-        f"{model_value.x.value:g}{model_value.x.units.value} {model_value.y.value:g}{model_value.y.units.value}"
+        f"{utils.format_number(model_value.x.value)}{model_value.x.units.value} {utils.format_number(model_value.y.value)}{model_value.y.units.value}"
       )
 
 
@@ -594,9 +594,9 @@ class StyleProperties:
       xml_element.set(
         f"{{{cls.ns}}}{cls.local_name}", 
         f"{model_value.h_edge.value} " \
-        f"{model_value.h_offset.value:g}{model_value.h_offset.units.value} " \
+        f"{utils.format_number(model_value.h_offset.value)}{model_value.h_offset.units.value} " \
         f"{model_value.v_edge.value} " \
-        f"{model_value.v_offset.value:g}{model_value.v_offset.units.value}"
+        f"{utils.format_number(model_value.v_offset.value)}{model_value.v_offset.units.value}"
       )
 
 
@@ -1183,4 +1183,4 @@ class StyleProperties:
 
   @staticmethod
   def to_ttml_length(model_value: styles.LengthType):
-    return f"{model_value.value:g}{model_value.units.value}"
+    return f"{utils.format_number(model_value.value)}{model_value.units.value}"
